@@ -269,6 +269,18 @@ def oracle_history(case, obs):
     where = {ev[3]: ev[1] for ev in case["events"] if ev[0] == "edit" and ev[3] is not None}
     lru: list = []  # [(ident, (name, text))] least recently used first — the "serves first" specification
     seen: list = []
+    idents = {ident_of(case, ev) for ev in reqs}
+    # two different (name, namespace) pairs of this history share a key string: the cache cannot tell them apart,
+    # so with auto_reload off only "a version this origin really had" is demanded (the known finding covers the rest)
+    colliding = len({key_string(p) for p in idents}) < len(idents)
+    written: dict = {}
+    versions_at = []  # versions every origin has had, at the time of each request
+    for ev in case["events"]:
+        if ev[0] == "edit":
+            if ev[3] is not None:
+                written.setdefault(ev[2], set()).add(ev[3])
+        else:
+            versions_at.append({k: set(v) for k, v in written.items()})
     for i, ev in enumerate(reqs):
         got, want = obs["outs"][i], obs["ref"][i]
         idn = ident_of(case, ev)
@@ -291,6 +303,10 @@ def oracle_history(case, obs):
             return (f"{kind}|{mode}|globals", f"request {i} {ev}: globals {got['ok']['g']}, the request asked for {expected_globals(case, ev)}")
         if got == expect:
             continue
+        if not case["auto_reload"] and colliding and "ok" in got and "ok" in want:
+            a, b = got["ok"], want["ok"]
+            if a["name"] == b["name"] and a["text"][0] == b["text"][0] and a["text"][1] in versions_at[i].get(a["text"][0], ()):
+                continue
         detail = f"request {i} {ev}: caching loader {got}, expected {expect}"
         if "err" in got:
             return (f"{kind}|{mode}|raises-{got['err']}", detail)
@@ -420,7 +436,7 @@ class SeqStream(HistoryStream):
                 for kw, cx in (("x", None), (None, ["y"]))
                 for mode in ("sync", "async")
                 for g in (None, [[1, 5]])
-                if g is None or (n == "a" and (kind == "ns" or kw))
+                if g is None or (n == "a" and ((kind == "ns" and L <= 3) or kw))
             ]
             if kind == "ns":
                 edits = [edit("x/a", True), edit("y/a", True)]
@@ -479,7 +495,7 @@ class RandomStream(HistoryStream):
 
     def cases(self, ctx):
         rng = ctx.rng_for("random")
-        n = ctx.scale(1500, 30000)
+        n = ctx.scale(1500, 20000)
         out = []
         gl = [None, None, [], [[1, 5]], [[1, 6]], [[0, 2], [2, 3]]]
         for i in range(n):
